@@ -9,6 +9,7 @@ import (
 
 	"verif/harness/fw"
 	"verif/harness/gen"
+	"verif/harness/props/c15a"
 	"verif/harness/sim"
 )
 
@@ -229,10 +230,26 @@ func newScenFiltered(c *fw.Case) *scen {
 
 func init() {
 	fw.Register(&fw.Spec{
-		ID: "C15e", Level: "exploration", Rule: c15e2eRule,
-		Cases:         func(tier, mode string) int { return c15e2eCases(tier) },
+		ID:    "C15",
+		Level: "exploration",
+		Rule:  "two case families. (A) evaluator agreement: " + c15a.Rule + " (B) " + c15e2eRule,
+		Assumptions: append(append([]string{}, c15a.Assumptions...),
+			"end-to-end family: payload expectations come from REF-LINEAR; the reference's own skip decisions are judged by a hand-written evaluation of each generated filter query",
+			"a filtered module whose inputs are all absent is skipped by the engine regardless of the filter (only modules reading the block source are required to run on every matching block)"),
+		Cases: func(tier, mode string) int { return c15a.Cases(tier) + c15e2eCases(tier) },
 		CaseTimeout:   180e9,
-		MinNontrivial: 5,
-		Run:           runC15e2e,
+		MinNontrivial: c15a.MinNontrivial,
+		Run: func(c *fw.Case) {
+			if n := c15a.Cases(c.Tier); c.Index < n {
+				c15a.Run(c)
+				return
+			}
+			runC15e2e(c)
+		},
+		Post: func(m *fw.Merged) {
+			if m.Counts["e2e_requests_with_index_files_present"] == 0 {
+				m.Notes = append(m.Notes, "no end-to-end request ran with an index file present")
+			}
+		},
 	})
 }
